@@ -343,6 +343,9 @@ class ProgGen:
         if x < 0.70:
             self.scopes.append({})
             init = r.choice(["", self.expr(1), "int %s = 0" % self.pick_name(), "%s %s" % (self.a_type(), r.choice(ALPHABET))])
+            if r.random() < 0.3:
+                # several declarators in the init clause (a DeclList with a tail)
+                init = "int " + ", ".join("%s%s = %s" % (r.choice(["", "*"]), nm, self.expr(2)) for nm in r.sample(ALPHABET, r.choice([2, 2, 3])))
             s = ind + "for (%s; %s; %s)\n%s" % (init, r.choice(["", self.expr(1)]), r.choice(["", self.expr(1)]), self.stmt(d - 1))
             self.scopes.pop()
             return s
